@@ -15,7 +15,8 @@ LEVEL = "proof"
 RULE = ("Coq: Properties/C01.v (lex_total and friends over coq/Lex.v, all char lists). Dynamic: (1) the extracted "
         "lexer model and the real lexer (hook op `lex`) must agree on token texts, all six position fields, comments "
         "and errors for every generated source: grammar-ish programs, token-level mutations, char-level mutations "
-        "(2/3/4-byte chars, NBSP, U+2003, U+3000, lone quotes/backslashes, shebangs, CR) and ALL strings of length "
+        "(2/3/4-byte chars, NBSP, U+2003, U+3000, lone quotes/backslashes, shebangs, CR), programs cut off at a token "
+        "boundary (unterminated constructs) and ALL strings of length "
         "<= 3 (quick) / <= 4 (thorough) over a 20-symbol alphabet; (2) crash search on the real front end: hook op "
         "`sexp` (lex+parse under catch_unwind) on every source, then `garden check`, `format`, `reftest-ast`, `run` "
         "on a sample written to files; exit status 101 or 'panicked at' is a violation, delta-debugged before it is "
@@ -331,13 +332,14 @@ POS_TEMPLATES = [
 ]
 
 
-def gen_sources(rng, n_prog, n_tokmut, n_charmut, small_len):
+def gen_sources(rng, n_prog, n_tokmut, n_charmut, small_len, n_trunc=0):
     """-> list of (kind, src)"""
     res = [("template", t) for t in POS_TEMPLATES]
     res += [("edge", s) for s in ["", " ", "\n", "#", "#!", "#!\n", "\"", "\\", "//", "/", "é", " ", "-", "-.", "1.", "1._",
                                    "-1", "- 1", "1-1", "1.5.2", "1__2", "_1", "a//b", "\"\\", "\"\\\"", "\"\\\\\"", "\"a\\\\\", \"b\"",
                                    "\"\n", "\"a\nb", "\"a\nb\"", "//\n//", "// c", "=>=", "::::", "&&&", "|||", "+.5", "**=", "#x\ny",
-                                   "x #y", "﻿x", "\r", "a\rb", "\"\r\n\"", "😀", "a😀b", "\"😀\"", "//😀\n😀"]]
+                                   "x #y", "let (a", "let (a,", "fun f() { let (x", "Foo{x: 1,", "Foo{ x: 1", "fun f<T,", "let x: List<Int,",
+                                   "else{", "else{}", "(,", "(\"\",", "struct{(", "fun broken(", "match x {", "[1,", "foo(", "x.", "if", "﻿x", "\r", "a\rb", "\"\r\n\"", "😀", "a😀b", "\"😀\"", "//😀\n😀"]]
     progs = []
     for _ in range(n_prog):
         toks = gen_program_tokens(rng)
@@ -346,6 +348,11 @@ def gen_sources(rng, n_prog, n_tokmut, n_charmut, small_len):
     for _ in range(n_tokmut):
         toks = mutate_tokens(rng, rng.choice(progs))
         res.append(("token-mutation", join_tokens(rng, toks, loose=0.15)))
+    # unterminated constructs: programs cut off at a token boundary (with and without a trailing space)
+    for _ in range(n_trunc):
+        toks = rng.choice(progs)
+        k = rng.randint(1, len(toks))
+        res.append(("truncation", join_tokens(rng, toks[:k], loose=0.3).rstrip(" ") + rng.choice(["", "", " ", "\n"])))
     base = [s for (_, s) in res if s]
     for _ in range(n_charmut):
         res.append(("char-mutation", mutate_chars(rng, rng.choice(base))))
@@ -365,8 +372,8 @@ def gen_sources(rng, n_prog, n_tokmut, n_charmut, small_len):
 
 def budgets(ctx):
     if ctx.thorough:
-        return dict(n_prog=6000, n_tokmut=12000, n_charmut=20000, small_len=4)
-    return dict(n_prog=500, n_tokmut=900, n_charmut=1600, small_len=3)
+        return dict(n_prog=6000, n_tokmut=12000, n_charmut=20000, small_len=4, n_trunc=15000)
+    return dict(n_prog=500, n_tokmut=900, n_charmut=1600, small_len=3, n_trunc=1500)
 
 
 # ---------------------------------------------------------------------------
